@@ -332,3 +332,11 @@ Definition fval_refs_ok_b (line_str str : list Z) (v : fval) : bool :=
 Definition header_refs_ok_b (line_str str : list Z) (h : lheader) : bool :=
   forallb (forallb (fval_refs_ok_b line_str str)) (h_dirs h) &&
   forallb (forallb (fval_refs_ok_b line_str str)) (h_file_names h).
+
+(* ------------------------------------------------------------------ the standard's numbering *)
+(* DWARF 5 Table 7.27 (line number header entry format names) plus the two LLVM vendor codes *)
+Local Open Scope string_scope.
+Definition spec_lnct : list (string * Z) := [
+  ("DW_LNCT_path", 0x1); ("DW_LNCT_directory_index", 0x2); ("DW_LNCT_timestamp", 0x3);
+  ("DW_LNCT_size", 0x4); ("DW_LNCT_MD5", 0x5); ("DW_LNCT_lo_user", 0x2000);
+  ("DW_LNCT_LLVM_source", 0x2001); ("DW_LNCT_LLVM_is_MD5", 0x2002); ("DW_LNCT_hi_user", 0x3fff)].
